@@ -160,39 +160,39 @@ def _outside_snapshot(case):
     return out
 
 
+def _restore(root, dirs, files):
+    """bring a root back to exactly its pristine content (MKD creates intermediate directories, renames move things)"""
+    want_d = {os.path.join(root, *d) for d in dirs}
+    want_f = {os.path.join(root, *f) for f in files}
+    if os.path.isdir(root):
+        for d, ds, fs in os.walk(root, topdown=False):
+            for x in fs:
+                if os.path.join(d, x) not in want_f:
+                    os.remove(os.path.join(d, x))
+            for x in ds:
+                if os.path.join(d, x) not in want_d:
+                    shutil.rmtree(os.path.join(d, x), ignore_errors=True)
+    elif os.path.lexists(root):
+        os.remove(root)
+    for d in sorted(want_d):
+        os.makedirs(d, exist_ok=True)
+    for f in want_f:
+        if not os.path.isfile(f):
+            with open(f, "w") as fh:
+                fh.write("public")
+
+
 def _reset_tree():
-    """undo what a session may have created / removed (sessions only touch names starting with 'mk' or 'up')"""
+    """undo everything a session may have created, moved or removed"""
     E = _env()
-    # the lonely root starts every session empty (and is re-created should a session have removed it)
-    shutil.rmtree(E["root2"], ignore_errors=True)
-    os.makedirs(E["root2"], exist_ok=True)
+    _restore(E["root2"], [[]], [])          # the lonely root starts every session empty
     keep = os.path.join(E["lonely"], "keep.txt")
     if not os.path.exists(keep):
         with open(keep, "w") as fh:
             fh.write("keep")
-    for r in [E["root"]] + list(E["xroots"].values()):
-        for d, ds, fs in os.walk(r, topdown=False):
-            for x in fs:
-                if x.startswith(("mk", "up")):
-                    os.remove(os.path.join(d, x))
-            for x in ds:
-                if x.startswith(("mk", "up")):
-                    shutil.rmtree(os.path.join(d, x), ignore_errors=True)
+    _restore(E["root"], DIRS, FILES)
     for r in E["xroots"].values():
-        for d in XDIRS:
-            os.makedirs(os.path.join(r, *d), exist_ok=True)
-        for f in XFILES:
-            if not os.path.exists(os.path.join(r, *f)):
-                with open(os.path.join(r, *f), "w") as fh:
-                    fh.write("public")
-    root = E["root"]
-    for d in DIRS:
-        os.makedirs(os.path.join(root, *d), exist_ok=True)
-    for f in FILES:
-        p = os.path.join(root, *f)
-        if not os.path.exists(p):
-            with open(p, "w") as fh:
-                fh.write("public")
+        _restore(r, XDIRS, XFILES)
 
 
 class SpyShell:
